@@ -187,7 +187,7 @@ Section Inv.
     match k with
     | KDst j => j = i
     | KNew q => q = p /\ forall p', names fs p' = Some i -> p' = p
-    | KSrc _ => False
+    | KSrc _ => True   (* link groups: see Lk in CopyLinkP.v *)
     end.
 
   Record Inv (fs : fsys) (X : xview) : Prop := {
@@ -392,7 +392,7 @@ Section Inv.
 
   Lemma inv_bind fs X P a j d e :
     Inv fs X -> names fs (P ++ [a]) = None -> names fs P = Some j -> is_dir (inodes fs j) = true ->
-    dm d e -> x_key e = KNew (P ++ [a]) ->
+    dm d e -> (x_key e = KNew (P ++ [a]) \/ exists s, x_key e = KSrc s) ->
     Inv (bind_new (P ++ [a]) d fs) (xupd (P ++ [a]) (Some e) X).
   Proof.
     intros I Hn HP Hd Hm Hk. set (T := P ++ [a]) in *.
@@ -423,7 +423,8 @@ Section Inv.
       apply path_eqb_neq in E. rewrite xupd_other; auto. apply (i_none _ _ I); auto.
     - intros p i H. destruct (Hnm _ _ H) as [[-> ->]|[Hp H1]].
       + exists e. rewrite xupd_same. simpl inodes. rewrite N.eqb_refl. split; [auto|split; [auto|]].
-        rewrite Hk. simpl. split; auto. intros p' H'. destruct (Hnm _ _ H') as [[-> _]|[_ H2]]; auto.
+        destruct Hk as [Hk|(s0 & Hk)]; rewrite Hk; simpl; auto.
+        split; auto. intros p' H'. destruct (Hnm _ _ H') as [[-> _]|[_ H2]]; auto.
         apply (i_lt _ _ I) in H2. lia.
       + destruct (i_some _ _ I _ _ H1) as (e0 & E1 & E2 & E3). exists e0. rewrite xupd_other by auto.
         simpl inodes. rewrite (Hold _ _ H1). split; [auto|split; [auto|]].
